@@ -59,4 +59,27 @@ def plan(pid, tier, seed):
                         "random patterns; one 'history' = 64 requests; distinct = distinct request chunks",
                 "trusted_base": ["translator tools/extract_facts.py (Rust expression subset -> BitVec terms)",
                                  "derive(Hash, Eq, Ord) expansion and serde_json/bincode are exercised, not modelled"]}
+    if pid == "C06":
+        jobs = []
+        ns = NSHARD_THOROUGH
+        for i in range(ns):
+            jobs.append({"engine": "sched-borrow", "name": f"sb-2x3-{i}",
+                         "args": ["--threads", 2, "--maxlen", 3, "--shard", i, "--nshards", ns]})
+        if q:
+            jobs.append({"engine": "sched-borrow", "name": "sb-3x1", "args": ["--threads", 3, "--maxlen", 1]})
+        else:
+            for i in range(ns):
+                jobs.append({"engine": "sched-borrow", "name": f"sb-3x2-{i}",
+                             "args": ["--threads", 3, "--maxlen", 2, "--shard", i, "--nshards", ns, "--cap", 400]})
+        return {"jobs": jobs, "nontrivial_min_lines": 5, "exhaustive": True, "exhaustive_note":
+                "all interleavings (atomic-step granularity) of all program tuples over {borrow, borrow_mut, release, release_mut}",
+                "rule": "one case = one schedule (interleaving) of one tuple of per-thread programs over "
+                        "{borrow, borrow_mut, release, release_mut}, enumerated depth-first; distinct = distinct "
+                        "(program tuple, schedule); non-trivial = at least 3 atomic steps",
+                "trusted_base": ["cooperative scheduler harness/src/sched.rs driving the yield hooks in borrow.rs",
+                                 "translator tools/extract_facts.py for the call sites and orderings",
+                                 "C++/Rust memory model: the model is sequentially consistent per location; the "
+                                 "release/acquire sufficiency is argued from the extracted orderings (DESIGN §5.C06)"],
+                "assumptions": ["fewer than 2^63 simultaneous shared borrows (counter-overflow panics out of scope)",
+                                "hardware reordering is not exhibited; orderings are checked syntactically (orderings_sufficient)"]}
     raise SystemExit(f"no plan for property {pid}")
